@@ -229,7 +229,7 @@ let read_cases (ic : in_channel) : case list =
            let f = match what with
              | "err" -> FErr (n_of_zt (BigZ.of_string (List.nth rest 0)))
              | "drop" -> FDrop (a 0) | "add" -> FAdd (a 0) | "dup" -> FDup (a 0)
-             | "swap" -> FSwap (a 0, a 1) | "subst" -> FSubst (a 0, a 1) | "widen" -> FWiden (a 0) | "addw" -> FAddW (a 0)
+             | "swap" -> FSwap (a 0, a 1) | "subst" -> FSubst (a 0, a 1) | "widen" -> FWiden (a 0) | "addw" -> FAddW (a 0) | "swapsig" -> FSwapSig (a 0, a 1)
              | _ -> failwith ("bad fault " ^ what) in
            !cur.faults <- !cur.faults @ [ (ki, f) ]
        | "rng" :: rest -> !cur.rng <- rest
